@@ -955,3 +955,85 @@ Holmeses, s\
         assert_eq!(rdr.binary_byte_offset(), Some(bytes.len() as u64 - 2));
     }
 }
+
+/// verif hook: drive a `LineBuffer` directly (same `fill`/`consume`/`buffer`
+/// entry points that `LineBufferReader` forwards to), with a chosen capacity,
+/// allocation policy and binary detection mode.
+#[cfg(feature = "verif-hooks")]
+pub mod verif {
+    use super::*;
+
+    /// Binary detection mode of the probe (mirrors the private enum).
+    #[derive(Clone, Copy, Debug)]
+    pub enum ProbeBinary {
+        /// No detection.
+        None,
+        /// Stop at the given byte.
+        Quit(u8),
+        /// Replace the given byte by the line terminator.
+        Convert(u8),
+    }
+
+    /// A line buffer under test.
+    #[derive(Debug)]
+    pub struct LineBufferProbe {
+        lb: LineBuffer,
+    }
+
+    impl LineBufferProbe {
+        /// `alloc_limit = None` is `BufferAllocation::Eager`, `Some(n)` is
+        /// `BufferAllocation::Error(n)`.
+        pub fn new(
+            capacity: usize,
+            lineterm: u8,
+            alloc_limit: Option<usize>,
+            binary: ProbeBinary,
+        ) -> LineBufferProbe {
+            let mut b = LineBufferBuilder::new();
+            b.capacity(capacity).line_terminator(lineterm);
+            b.buffer_alloc(match alloc_limit {
+                None => BufferAllocation::Eager,
+                Some(n) => BufferAllocation::Error(n),
+            });
+            b.binary_detection(match binary {
+                ProbeBinary::None => BinaryDetection::None,
+                ProbeBinary::Quit(x) => BinaryDetection::Quit(x),
+                ProbeBinary::Convert(x) => BinaryDetection::Convert(x),
+            });
+            let mut lb = b.build();
+            // what LineBufferReader::new does
+            lb.clear();
+            LineBufferProbe { lb }
+        }
+
+        /// `LineBuffer::fill`.
+        pub fn fill<R: io::Read>(&mut self, rdr: R) -> Result<bool, io::Error> {
+            self.lb.fill(rdr)
+        }
+
+        /// `LineBuffer::consume` (panics like the original when `amt` is too big).
+        pub fn consume(&mut self, amt: usize) {
+            self.lb.consume(amt)
+        }
+
+        /// `LineBuffer::buffer`.
+        pub fn buffer(&self) -> &[u8] {
+            self.lb.buffer()
+        }
+
+        /// `LineBuffer::absolute_byte_offset`.
+        pub fn absolute_byte_offset(&self) -> u64 {
+            self.lb.absolute_byte_offset()
+        }
+
+        /// `LineBuffer::binary_byte_offset`.
+        pub fn binary_byte_offset(&self) -> Option<u64> {
+            self.lb.binary_byte_offset()
+        }
+
+        /// Length of the backing vector (initial capacity plus growth).
+        pub fn allocated(&self) -> usize {
+            self.lb.buf.len()
+        }
+    }
+}
